@@ -173,6 +173,71 @@ theorem missing_argument_fails (cfg : Cfg) (fl : Str) (w : WSpec) (p : PSpec) (w
   rw [List.append_nil] at h
   exact format_spec_err cfg _ _ _ h
 
+/-! ## number → string: hawk_rtx_valtostr (val.c) -/
+
+/-- the text of an integer is what `%d` gives, for the duplicating and the string-buffer output kinds; `strpcat` appends it -/
+theorem val_int_to_str_eq_C (v : Int) (buflen : Nat) (pre : Str) :
+    valIntToStr v .cpldup buflen pre = .ok (CSpec.render (cspec [] .none .none 'd') v) ∧
+    valIntToStr v .strp buflen pre = .ok (CSpec.render (cspec [] .none .none 'd') v) ∧
+    valIntToStr v .strpcat buflen pre = .ok (pre ++ CSpec.render (cspec [] .none .none 'd') v) := by
+  simp [valIntToStr, intCells_eq, intText_eq_render]
+
+/-- an integer into a caller's buffer of `buflen` cells (kinds cpl and cplcpy): the whole text when it fits together with its
+terminator, otherwise the call fails and reports the size needed - never a shortened text -/
+theorem val_int_fixed_buffer_whole_or_fail (v : Int) (buflen : Nat) (pre : Str) :
+    valIntToStr v .cplcpy buflen pre =
+      (if buflen ≤ (CSpec.render (cspec [] .none .none 'd') v).length
+       then .einval (some ((CSpec.render (cspec [] .none .none 'd') v).length + 1))
+       else .ok (CSpec.render (cspec [] .none .none 'd') v)) ∧
+    valIntToStr v .cpl buflen pre = valIntToStr v .cplcpy buflen pre := by
+  have hc : intCells v (CSpec.render (cspec [] .none .none 'd') v).length = CSpec.render (cspec [] .none .none 'd') v := by
+    have := intCells_eq v
+    rwa [intRlen_exact, intText_eq_render] at this
+  simp only [valIntToStr, intRlen_exact, intText_eq_render, ge_iff_le, and_true, hc]
+
+/-- the text `t` of a float (what hawk_rtx_format made of CONVFMT/OFMT) into a caller's buffer: whole or not at all -/
+theorem val_flt_fixed_buffer_whole_or_fail (t : Str) (buflen : Nat) (pre : Str) :
+    (t.length < buflen → deliverFlt t .cplcpy buflen pre = .ok t) ∧
+    (buflen ≤ t.length → deliverFlt t .cplcpy buflen pre = .einval (some (t.length + 1))) ∧
+    (∀ t', deliverFlt t .cplcpy buflen pre = .ok t' → t' = t ∧ t.length < buflen) ∧
+    deliverFlt t .cpl buflen pre = deliverFlt t .cplcpy buflen pre := by
+  refine ⟨?_, ?_, ?_, rfl⟩
+  · intro h; have : ¬ buflen ≤ t.length := by omega
+    simp [deliverFlt, this]
+  · intro h; simp [deliverFlt, h]
+  · intro t' h
+    by_cases hb : buflen ≤ t.length
+    · simp [deliverFlt, hb] at h
+    · simp only [deliverFlt, hb, if_false, VRes.ok.injEq] at h
+      exact ⟨h.symm, by omega⟩
+
+/-- the other output kinds deliver the float text unchanged; `strpcat` appends it to what the buffer holds -/
+theorem val_flt_other_kinds (t : Str) (buflen : Nat) (pre : Str) :
+    deliverFlt t .cpldup buflen pre = .ok t ∧ deliverFlt t .strp buflen pre = .ok t ∧
+    deliverFlt t .strpcat buflen pre = .ok (pre ++ t) := ⟨rfl, rfl, rfl⟩
+
+/-- the text itself: val_flt_to_str formats with CONVFMT, or OFMT when HAWK_RTX_VALTOSTR_PRINT is given, and a float specification
+in it goes to libc as `libcSpecOf` says (`float_spec_passthrough`); there is no `*` argument to take -/
+theorem val_flt_to_str_spec (tmpLen : Nat) (print : Bool) (convfmt ofmt : Str) (fl : Str) (w : WSpec) (p : PSpec)
+    (wf : SpecWF fl w p) (c : Char) (hc : c = 'e' ∨ c = 'E' ∨ c = 'f' ∨ c = 'g' ∨ c = 'G') (a : Arg)
+    (hw : w.args = []) (hp : p.args = [])
+    (hfmt : (if print then ofmt else convfmt) = '%' :: specText fl w p c) :
+    valFltPieces tmpLen print convfmt ofmt a = .ok [.libc (libcSpecOf fl w p c) a] := by
+  unfold valFltPieces valFltFormat
+  rw [hfmt]
+  exact (convfmt_same_rule tmpLen fl w p wf c hc a hw hp).1
+
+/-- strings, characters and nil through the same output kinds (str_to_str): whole or not at all into a caller's buffer -/
+theorem str_fixed_buffer_whole_or_fail (s : Str) (buflen : Nat) (pre : Str) :
+    (s.length < buflen → strToStr s .cplcpy buflen pre = .ok s) ∧
+    (buflen ≤ s.length → strToStr s .cplcpy buflen pre = .einval none) ∧
+    strToStr s .cpldup buflen pre = .ok s ∧ strToStr s .strp buflen pre = .ok s ∧
+    strToStr s .strpcat buflen pre = .ok (pre ++ s) := by
+  refine ⟨?_, ?_, rfl, rfl, rfl⟩
+  · intro h; have : ¬ s.length ≥ buflen := by omega
+    simp [strToStr, this]
+  · intro h; simp [strToStr, h]
+
 /-! ## non-vacuity: the hypotheses are satisfiable by non-trivial specifications, and the reference says what C says -/
 
 example : SpecWF ['#', '0'] (.lit ['8']) .none := ⟨by decide, by simp [WSpec.wf], trivial⟩
@@ -198,5 +263,18 @@ example : libcSpecOf ['-', '0', '#'] .none (.star (-1)) 'g' = "%#-Lg".toList := 
   simp only [libcSpecOf, decimal_eq]; decide
 example : isConvEnd 'y' ∧ isKnownConv 'y' = false := by unfold isConvEnd; decide
 example : isConvEnd 'l' ∧ isKnownConv 'l' = false := by unfold isConvEnd; decide
+
+example : valIntToStr (-42) .cplcpy 4 [] = .ok "-42".toList := by
+  rw [(val_int_fixed_buffer_whole_or_fail (-42) 4 []).1]; decide
+example : valIntToStr (-42) .cplcpy 3 [] = .einval (some 4) := by
+  rw [(val_int_fixed_buffer_whole_or_fail (-42) 3 []).1]; decide
+example : valIntToStr (-9223372036854775808) .strpcat 0 "k=".toList = .ok "k=-9223372036854775808".toList := by
+  rw [(val_int_to_str_eq_C _ 0 _).2.2]; decide
+example : deliverFlt "0.50".toList .cplcpy 4 [] = .einval (some 5) ∧ deliverFlt "0.50".toList .cplcpy 5 [] = .ok "0.50".toList := by decide
+example : valFltPieces 4096 false "%.3g".toList "%.6g".toList (.flt 3 []) = .ok [.libc "%.3Lg".toList (.flt 3 [])] := by
+  have := val_flt_to_str_spec 4096 false "%.3g".toList "%.6g".toList [] .none (.lit ['3']) ⟨by decide, trivial, by simp [PSpec.wf]⟩ 'g' (by simp) (.flt 3 []) rfl rfl rfl
+  rw [this]
+  have : libcSpecOf [] .none (.lit ['3']) 'g' = "%.3Lg".toList := by simp only [libcSpecOf, decimal_eq]; decide
+  rw [this]
 
 end Hawk.Fmt.C12
